@@ -2,5 +2,5 @@ from . import interpprops
 def check(res, thorough):
     return interpprops.check(res, thorough, "C08", "AscaVerif.Props.C08", "c08-spec", "c08.cases", "c08.nontrivial",
         """random rule sequences of 1-6 rules, half from a catalogue weighted towards deletion, boundary insertion/deletion/metathesis, syllable substitution and tone/length changes, half from the full grammar, one rule per group so that the hook returns every intermediate word; Word.WF (>=1 syllable, no empty syllable, tone <= 4 non-zero digits, bundle bits) evaluated after every group; non-trivial = the sequence changes the word""",
-        ["input words are well formed (checked)", "cases that panic or hang are skipped (C02)"], extra_props=["AscaVerif.Props.C08Scan", "AscaVerif.Props.C08Delete"])
+        ["input words are well formed (checked)", "cases that panic or hang are skipped (C02)"], extra_props=["AscaVerif.Props.C08Scan", "AscaVerif.Props.C08Delete", "AscaVerif.Props.C08Matrix"])
 replay = interpprops.replay
